@@ -741,3 +741,6 @@ def run(ctx):
     lat45(ctx)
     ctx.rep.trust("dataclass field-order and __post_init__ semantics", "jax pytree contract: "
                   "tree_unflatten(aux, children) receives exactly what tree_flatten returned")
+
+TECHNIQUE = ("static analysis: AST class-table rules (pytree field alignment, mixed-radix decode "
+             "agreement, neighbour-offset closure)")
